@@ -47,13 +47,33 @@ pub fn judge(src: &str, class: &str, rc: &mut RCase) -> Result<(), Failure> {
             let e = tx3_lang::parsing::Error { message: message.clone(), src: esrc.clone(), span: tx3_lang::ast::Span::new(span.start, span.end) };
             let r = guard(|| {
                 let ss: miette::SourceSpan = tx3_lang::ast::Span::new(span.start, span.end).into();
-                let _ = (ss.offset(), ss.len());
+                // the labels a renderer is handed (through the Diagnostic trait) against the text it is handed
+                let labels: Vec<(usize, usize)> =
+                    miette::Diagnostic::labels(&e).map(|it| it.map(|l| (l.offset(), l.len())).collect()).unwrap_or_default();
                 let report = miette::Report::new(e);
-                format!("{:?}", report)
+                ((ss.offset(), ss.len()), labels, format!("{:?}", report))
             });
             match r {
                 Err(p) => return Err(Failure::new("parse_span:render_panics", format!("{} / {}", detail, p.message), rendered())),
-                Ok(_) => {}
+                Ok(((off, len), labels, _)) => {
+                    for (o, l) in labels.into_iter().chain([(off, len)]) {
+                        let end = o.saturating_add(l);
+                        if end > esrc.len() {
+                            return Err(Failure::new(
+                                "parse_label:outside_attached_text",
+                                format!("{} ; the label handed to the renderer is {}..{}", detail, o, end),
+                                rendered(),
+                            ));
+                        }
+                        if !on_boundary(&esrc, o) || !on_boundary(&esrc, end) {
+                            return Err(Failure::new(
+                                "parse_label:not_on_char_boundary",
+                                format!("{} ; the label handed to the renderer is {}..{}", detail, o, end),
+                                rendered(),
+                            ));
+                        }
+                    }
+                }
             }
             rc.label("parse_error_judged");
             // non-trivial: error located after the first line, or after a multi-byte character
@@ -136,10 +156,12 @@ fn rename_identifier(src: &str, t: &mut Tape) -> String {
 fn decorate(src: &str, t: &mut Tape) -> String {
     // multi-line, CRLF and multi-byte material before the error
     let mut out = String::new();
-    match t.pick(4) {
-        0 => {}
+    match t.pick(6) {
+        0 | 4 => {}
         1 => out.push_str("// héllo ✓ comment\n"),
         2 => out.push_str("/* multi\r\n   line é */\r\n"),
+        // a byte order mark, as editors on some platforms put in front of a file
+        5 => out.push('\u{feff}'),
         _ => out.push_str("\n\n\n"),
     }
     let body = if t.flag() { src.replace('\n', "\r\n") } else { src.to_string() };
